@@ -62,10 +62,11 @@ impl Check for C12Subst {
                     None
                 };
                 let vk = *g.tape.pick(LEAF_KINDS);
-                let vname = g.tape.pick_s(&["v", "w", "foo", "v1"]).to_string();
+                // (among the names: some that a convenience feature might bind by itself inside function arguments)
+                let vname = g.tape.pick_s(&["v", "w", "foo", "v1", "index", "value", "key", "item", "i", "acc"]).to_string();
                 let vlit = g.lit(vk, 2);
                 let mk = *g.tape.pick(&[Num, Str, Bool, Any, ArrNum]);
-                let mname = g.tape.pick_s(&["m", "w", "add-1", "v"]).to_string();
+                let mname = g.tape.pick_s(&["m", "w", "add-1", "v", "index", "value"]).to_string();
                 // the macro body may use the variable
                 let mut env_m = env.clone();
                 env_m.vars.push((vname.clone(), vk));
@@ -527,7 +528,7 @@ impl Check for C12Preset {
                 // the kind the position wants, so that the option does something
                 let want = [ArrNum, Bool, Num, Str, Any][position as usize];
                 let vk = if g.tape.chance(1, 2) { want } else { *g.tape.pick(LEAF_KINDS) };
-                let vname = g.tape.pick_s(&["v", "w", "foo"]).to_string();
+                let vname = g.tape.pick_s(&["v", "w", "foo", "index", "value", "key"]).to_string();
                 let vlit = g.lit(vk, 2);
                 env.vars.push((vname.clone(), vk));
                 let mk = if g.tape.chance(1, 2) { want } else { *g.tape.pick(&[Num, Str, Bool, ArrNum]) };
